@@ -14,6 +14,18 @@ def d2(x):
 
 
 def make_grid(L):
+    """L.cast (added by the harness, not part of the specification's layout): the same grid obtained through
+    finam's casts - "rect": UniformGrid/EsriGrid.to_rectilinear(), "uni": EsriGrid.to_uniform()."""
+    g = _make_grid(L)
+    cast = L.get("cast")
+    if cast == "rect" and L["kind"] in ("uniform", "esri"):
+        g = g.to_rectilinear()
+    elif cast == "uni" and L["kind"] == "esri":
+        g = g.to_uniform()
+    return g
+
+
+def _make_grid(L):
     loc = "CELLS" if L["loc"] == "cells" else "POINTS"
     if L["kind"] == "uniform":
         return fm.UniformGrid(tuple(L["dims"]), data_location=loc, order=L["order"], axes_reversed=L["rev"],
